@@ -8,7 +8,10 @@ exec 8>"${TMPDIR:-/tmp}/dvcheck-repo.lock"; flock 8
 git -C /repo diff --quiet || { echo "/repo has uncommitted changes: refusing (they would be lost by the revert)"; exit 2; }
 git -C /repo apply --check "$PATCH" || { echo "patch does not apply"; exit 2; }
 git -C /repo apply "$PATCH"
+# the evidence file is rewritten by every run: keep the one from the unchanged tree
+EV="$HERE/evidence/$P.json"; [ -f "$EV" ] && cp "$EV" "$EV.keep"
 DVCHECK_REPO_LOCK_HELD=1 "$HERE/run.sh" "$P" "$TIER"; code=$?
+[ -f "$EV.keep" ] && mv "$EV.keep" "$EV"
 git -C /repo checkout -- . ; git -C /repo status --short | grep -v '^??' | head -3
 flock -u 8
 exit $code
